@@ -171,5 +171,37 @@ def run(ctx):
     if kseen != 1:
         ctx.defer_fault("key-protocol canary not executed")
     ctx.notes["key_protocol_outcomes"] = dict(outcomes)
+
+    # 5. the goroutines of a DAP session (spec/DapSession.tla): early commands, the last response, disconnect
+    dt = ctx.tlc("DapSession", cfg="DapSession.cfg", timeout=600, tag="dapsession")
+    if dt.violated:
+        raise MachineryFault("DapSession.tla: invariant violated on the model: %s (a lead only; see %s)" % (dt.violated, dt.out_path))
+    dallowed = collections.defaultdict(list)
+    for l in open(dt.beh_path):
+        b = json.loads(l)
+        if b["out"] not in dallowed[(b["S"], b["E"])]:
+            dallowed[(b["S"], b["E"])].append(b["out"])
+    if not dallowed:
+        raise MachineryFault("DapSession.tla printed no outcome")
+    pin = os.path.join(ctx.work, "proto.jsonl")
+    with open(pin, "w") as f:
+        for (S, E), a in sorted(dallowed.items()):
+            f.write(json.dumps({"S": S, "E": E, "allowed": a, "reps": 2 if quick else 10}) + "\n")
+        f.write(json.dumps({"S": 1, "E": 0, "allowed": dallowed[(1, 0)], "reps": 1, "canary": True}) + "\n")
+    pout = ctx.harness("vhx01", ["proto", "-falco", falco, "-programs", pj, "-dir", os.path.join(ctx.work, "proto_vcl")],
+                       stdin_path=pin, timeout=1500, out_name="proto_out.jsonl")
+    pseen, pouts = 0, collections.Counter()
+    for r in ctx.read_results(pout):
+        if r["id"].startswith("canary-"):
+            pseen += 1
+            if not any(m.get("dev") == "unclassified" for m in r.get("mismatch", [])):
+                ctx.defer_fault("canary accepted: %s" % r["id"])
+            continue
+        o = r["observed"]
+        pouts["S%d E%d unanswered=%d discon=%s" % (r["input"]["S"], r["input"]["E"], o["unanswered_steps"], o["discon"])] += 1
+        ctx.add_result(r)
+    if pseen != 1:
+        ctx.defer_fault("session-protocol canary not executed")
+    ctx.notes["dap_session_outcomes"] = dict(pouts)
     ctx.exhaustive = {"model": "Stepper.tla invariants exhaustive at MaxStops=%s MaxBps=%s; replay is a stratified sample" %
                       (("3", "1") if quick else ("4", "2"))}
